@@ -29,7 +29,8 @@ func (T *vTab) colPtr(r uintptr) *vPtrC { return (*vPtrC)(T.t.Get(T.W.id[cP], r)
 // vArbTable: the {A,P} table of a fresh world with capacity vTCap, symbolic length and rows
 func vArbTable(minLen uint32) *vTab {
 	W := vNewWorld(vTCap, vTCap, 0)
-	h := W.u.NewEntity(W.id[cA], W.id[cP])
+	// columns A (trivial), T (zero-size tag, between the data columns), P (pointer-bearing)
+	h := W.u.NewEntity(W.id[cA], W.id[cT], W.id[cP])
 	W.w.RemoveEntity(h)
 	T := &vTab{W: W}
 	for i := range W.w.storage.tables {
